@@ -100,6 +100,14 @@ def _seed(p):
 
 B = lambda: L.base  # noqa
 
+
+def _maybe(f, kind):
+    """[(value, kind)] or [] when the call raises (for inputs whose documented answer is an exception)"""
+    try:
+        return [(f(), kind)]
+    except Exception:  # noqa
+        return []
+
 VFORMS = ["list", "list", "list", "tuple", "array", "float32", "float32"]
 
 
@@ -145,6 +153,13 @@ ENTRIES = {
     "trexp/se3": lambda p: [(B().trexp(V(p, np.r_[arr(p["t"]), _rotvec(p)], "array")), "SE3"), (B().trexp(refs.hat6(arr(p["t"]), _rotvec(p))), "SE3")],
     "trexp/theta": lambda p: [(B().trexp(refs.unit(p["axis"]), p["a"][0]), "SO3"),
                               (B().trexp(np.r_[arr(p["t"]), refs.unit(p["axis"])], p["a"][0]), "SE3")],
+    # theta given with a twist that is NOT a unit twist (translational part of unit length, rotational part of any length):
+    # the documented answer is an exception; whatever is returned instead must still be a group member
+    "trexp/theta/nonunit": lambda p: (_maybe(lambda: B().trexp(np.r_[refs.unit(p["perp"]), arr(p["axis"])], p["a"][0]), "SE3")
+                                      + _maybe(lambda: B().trexp(refs.hat6(refs.unit(p["perp"]), arr(p["axis"])), p["a"][0]), "SE3")
+                                      + _maybe(lambda: B().trexp(np.r_[arr(p["t"]), arr(p["axis"])], p["a"][0]), "SE3")
+                                      + _maybe(lambda: B().trexp(arr(p["axis"]), p["a"][0]), "SO3")
+                                      + _maybe(lambda: B().trexp2(np.r_[refs.unit(p["perp"])[:2] if any(p["perp"][:2]) else [1.0, 0.0], p["len2"]], p["a"][0]), "SE2")),
     "rodrigues": lambda p: [(B().rodrigues(V(p, _rotvec(p))), "SO3"), (B().rodrigues(refs.unit(p["axis"]), p["a"][0]), "SO3"),
                             (B().rodrigues([p["a"][0]]), "SO2")],
     "q2r(unit)": lambda p: [(B().q2r(B().unit(V(p, p["q"], "array"))), "SO3")],
